@@ -115,6 +115,27 @@ func c31Gen(r *rand.Rand, tier string, i int) any {
 	}
 	nids := 3 + r.Intn(6)
 	burstNext := c31BurstBase
+	// scripted prefix (1 case in 5 with a small filter): fill, rotate, record a drop right after the rotation,
+	// fill again, rotate a second time, look the drop up - it was inserted into both generations
+	if !big && r.Intn(5) == 0 {
+		per := (in.Dsz + in.Wc - 1) / in.Wc
+		slots := 4
+		if per >= 4 {
+			slots = 8
+		}
+		if per >= 8 {
+			slots = 16
+		}
+		x := 1 + r.Intn(nids)
+		in.Ops = append(in.Ops, c31Op{Op: "burst", ID: burstNext, N: slots}, c31Op{Op: "maintain"})
+		burstNext += slots
+		if r.Intn(2) == 0 {
+			in.Ops = append(in.Ops, c31Op{Op: "kept", ID: x, Rate: 7, Reason: 1, Desc: 1, Span: 1})
+		}
+		in.Ops = append(in.Ops, c31Op{Op: "dropped", ID: x}, c31Op{Op: "burst", ID: burstNext, N: slots - 1}, c31Op{Op: "maintain"},
+			c31Op{Op: "trace", ID: x}, c31Op{Op: "span", ID: x})
+		burstNext += slots - 1
+	}
 	for j := 0; j < nops; j++ {
 		id := 1 + r.Intn(nids)
 		switch x := r.Intn(100); {
@@ -307,6 +328,9 @@ func c31Run(raw json.RawMessage) (Case, error) {
 			case "maintain":
 				cc, cs, _, _, _, _ := chk.VerifC31State()
 				if 100*uint64(cc) > 99*uint64(cs) {
+					if tags["rotation"] {
+						tags["two-rotations"] = true
+					}
 					tags["rotation"] = true
 				}
 				chk.Maintain()
